@@ -6,6 +6,12 @@ ALL = ["C%02d" % i for i in range(1, 20)]
 
 # id -> (level category, technique, level text, level note, design ref)
 CHECKS = {
+ "C04": ("exploration", "runtime monitor: byte-equality oracle at the sink across job counts, Write partitions and hook-driven schedules (random yields/sleeps and controlled PCT priority schedules)",
+         "For 11 configurations (incl. the CLI level chains that consult per-block data-type hints, BWT, ROLZX, TPAQ, CM) and multi-batch inputs whose blocks have heterogeneous content, the sink bytes of every variant - jobs 2..64, four Write partitions, 4 hint modes, schedules none/free/PCT - are compared with the jobs=1 single-Write run. About 660 (quick) / 8 000 (thorough) variant runs; evidence reports the number of distinct hand-off orders observed. Exploration: schedules are sampled.",
+         "Interleavings inside a codec are left to the Go scheduler (tasks are sequential except the inverse BWT).", "DESIGN.md §3 C04"),
+ "C05": ("exploration", "runtime monitor: API-boundary oracle (equality / prefix-of-original incl. reads after an error) + the C07 trace automaton, under controlled (bounded DFS, PCT) and randomly perturbed decode schedules; porcupine on free-running histories",
+         "Valid streams (6 codec pairs, 1..130 blocks incl. > 63, partial last batch, with/without hint) are decoded with jobs {1,2,3,4,8,64} under PCT and perturbed schedules and must equal the original; streams whose block k is damaged / has a forged stored length are decoded while the controller places the neighbours before their wait, spinning, inside the shared read or past their publish: everything returned, also after the error, must be a prefix of the original and the failure must be reported. About 11 000 (quick) executions.",
+         "Same trusted base as C07.", "DESIGN.md §3 C05"),
  "C07": ("exploration", "runtime monitor: controlled cooperative scheduler on the protocol step hook (exhaustive DFS for 2 tasks, preemption-bounded DFS for 3-4, PCT for 5-16) with an online trace automaton and logical stuck detection; fault injection at every (task, step); offline porcupine linearizability check of free-running histories against a ticket-lock-with-cancel model",
          "The step hook blocks every block task at every protocol step (also each spin iteration) and a controller releases exactly one task at a time, so the recorded event order is the execution order of the protocol steps. All interleavings of one batch of 2 tasks are enumerated (both sides: no fault, every (task, step) injected failure, damaged / forged blocks, end-of-stream and skipped-block outcomes); 3-4 tasks with preemption bound 1-2, 5-16 tasks with PCT; sink failures inside the shared section. The automaton checks mutual exclusion, increasing block order, the counter value at acquisition, no acquisition after a cancel, every task exits (a state where all live tasks spin on an unchanged counter is a deadlock - no clocks), and that a failed task makes the API call return an error. 400 free-running histories with random yields are checked with porcupine. Exhaustive only for the 2-task single-batch scenarios listed in the evidence.",
          "Atomicity is at hook-step granularity in controlled mode. Trusts harness/sched (scheduler, monitor, ~600 lines) and the 12 hook call sites in v2/io/CompressedStream.go.", "DESIGN.md §3 C07"),
